@@ -89,14 +89,15 @@ func (c *ctx) docIndexFor(conn int) (int, bool) {
 }
 
 type winfo struct {
-	invs    []invocation
-	invEnd  map[int]int // invocation index -> Seq of invoke-end
-	writes  []world.Ev
-	closed  bool
-	getOK   int // -1 unknown, 0 refused, 1 served
-	secret  []byte
-	timeout bool
-	gotGet  bool
+	invs       []invocation
+	invEnd     map[int]int // invocation index -> Seq of invoke-end
+	writes     []world.Ev
+	closed     bool
+	closedEver bool
+	getOK      int // -1 unknown, 0 refused, 1 served
+	secret     []byte
+	timeout    bool
+	gotGet     bool
 }
 
 func (c *ctx) connInfo(id int) winfo {
@@ -114,7 +115,10 @@ func (c *ctx) connInfo(id int) winfo {
 		case "write":
 			w.writes = append(w.writes, e)
 		case "close":
-			w.closed = true
+			if e.Seq < drain {
+				w.closed = true // on the server's own initiative, not the end-of-run shutdown
+			}
+			w.closedEver = true
 		case "get-end":
 			w.gotGet = true
 			w.getOK = int(e.A)
@@ -200,11 +204,15 @@ func (c *ctx) refConn(d model.Doc, i int) {
 			return
 		case "terminate", "badsecret":
 			if k < len(w.invs) {
-				if pr.Exp.Verdict == "terminate" {
-					c.vs("C08/dispatched-after-violation", pr.Exp.Why, "conn %d: packet %s violates the sequence rules (%s) but a handler ran", id, hstr(pr.H), pr.Exp.Why)
-				} else {
-					c.v("C19/mismatch-processed", "conn %d: packet %s has the key-mismatch signature but a handler ran", id, hstr(pr.H))
+				// a handler ran for the rejected packet or for one behind it
+				if w.invs[k].H == pr.H {
+					if pr.Exp.Verdict == "terminate" {
+						c.vs("C08/dispatched-after-violation", pr.Exp.Why, "conn %d: packet %s violates the sequence rules (%s) but a handler ran", id, hstr(pr.H), pr.Exp.Why)
+					} else {
+						c.v("C19/mismatch-processed", "conn %d: packet %s has the key-mismatch signature but a handler ran", id, hstr(pr.H))
+					}
 				}
+				c.vs("C07/processed-after-reject", pr.Exp.Why, "conn %d: packet %s was rejected (%s) yet a handler ran afterwards with %s: the connection was not closed", id, hstr(pr.H), pr.Exp.Why, hstr(w.invs[k].H))
 				return
 			}
 			if pr.Exp.Verdict == "badsecret" {
@@ -307,6 +315,9 @@ func (c *ctx) checkRefReply(id int, pr plan.RefPred, rp model.Packet, srvKey []b
 			return
 		}
 		if v.Status == model.AuthenPass && !e.PassAllowed {
+			if c.userElsewhere(e.User, pr) {
+				c.v("C13/user-visible-outside-its-scope", "conn %d: user %q is not assigned to this connection's scope, yet it authenticated (users of other scopes must not exist here)", id, e.User)
+			}
 			c.vs("C10/pass-without-basis", band, "conn %d session %d: PASS for user %q although the model finds no basis (expected %v)", id, req.Session, e.User, e.Statuses)
 			return
 		}
@@ -356,6 +367,18 @@ func (c *ctx) checkRefReply(id int, pr plan.RefPred, rp model.Packet, srvKey []b
 			c.checkSink(id, pr, inv, w)
 		}
 	}
+}
+
+// userElsewhere: the named user exists in some configuration document of the plan.
+func (c *ctx) userElsewhere(user string, pr plan.RefPred) bool {
+	for _, d := range c.p.Scen.Docs {
+		for _, u := range d.Users {
+			if u.Name == user {
+				return true
+			}
+		}
+	}
+	return false
 }
 
 func sameArgs(a, b [][]byte) bool {
@@ -558,8 +581,12 @@ func (c *ctx) secretsInLogs(d model.Doc) {
 					add("password (START data)", string(b.S[3]))
 				}
 			case model.KAuthenCont:
-				if len(b.S) > 0 && isPoolPassword(string(b.S[0])) {
-					add("password (CONTINUE user_msg)", string(b.S[0]))
+				if len(b.S) > 0 {
+					for _, pp := range plan.PwPool {
+						if strings.Contains(string(b.S[0]), pp.Pw) {
+							add("password (CONTINUE user_msg)", pp.Pw)
+						}
+					}
 				}
 			}
 		}
